@@ -261,7 +261,7 @@ def mgd_cases(ck, have_driver: bool, thorough: bool):
     mv_lines, mv_ctx = [], []
     shapes = [(n, t, y) for n in (2, 3, 4) for t in range(n)
               for y in (True, False)]
-    reps = 2 if thorough else 1
+    reps = 6 if thorough else 2
     for rep in range(reps):
         for n, t, is_y in shapes:
             for twice in (True, False):
@@ -568,6 +568,15 @@ def block_pass_cases(ck, rules, n: int, thorough: bool):
                    'CircuitGate', 'UnfoldPass', (), c, kind)
         tgt = ('variable', 'constant')[i % 2]
         run('BlockConversionPass', P.BlockConversionPass(tgt), (tgt,), c, kind)
+        # passes that read a block through op.get_unitary(): single-qudit
+        # blocks are converted / merged, wider ones kept
+        run('ToU3Pass', P.ToU3Pass(True), (True,), c, kind)
+        run('ToVariablePass', P.ToVariablePass(True), (True,), c, kind)
+        run('FillSingleQuditGatesPass', P.FillSingleQuditGatesPass(), (), c,
+            kind, tol=1e-7)
+        run('GroupSingleQuditGatePass', P.GroupSingleQuditGatePass(), (), c,
+            kind)
+        run('CompressPass', P.CompressPass(), (), c, kind)
         if block_depth(c) < 2:
             run('StructureAnalysisPass', P.StructureAnalysisPass(), (), c,
                 kind)
